@@ -10,7 +10,7 @@ WORK = os.path.join(ROOT, "work")
 REPLAYS = os.path.join(ROOT, "replays")
 EVIDENCE = os.path.join(ROOT, "evidence")
 
-MATRIX = [(1, 1), (2, 3), (3, 2), (4, 1), (4, 4), (5, 5), (7, 2), (8, 1), (8, 3), (12, 4), (16, 1), (16, 2),
+MATRIX = [(1, 1), (1, 4), (2, 3), (2, 5), (3, 2), (4, 1), (4, 4), (4, 8), (5, 5), (7, 2), (8, 1), (8, 3), (12, 4), (16, 1), (16, 2),
           (16, 3), (16, 8), (24, 2), (32, 4), (48, 3), (64, 2), (255, 2)]
 BLOCK_MODES = ["cbc-enc", "cbc-dec", "pcbc-enc", "pcbc-dec", "ige-enc", "ige-dec", "cfb-enc", "cfb-dec",
                "cfb8-enc", "cfb8-dec", "ofb-enc", "ofb-dec"]
